@@ -1133,14 +1133,14 @@ func e2eCases(thorough bool) []Case {
 			mk(n, pp[0], "modify", pp[1], "primary", "unsigned")
 		}
 	}
-	// pairs of odd components below a literal rule
-	for _, a := range alphabet {
+	// pairs: a directory named by one of four representative components holding
+	// a file named by any other component, below a literal rule
+	for _, a := range []string{"a", "a b", "é", `q"q`} {
 		for _, b := range alphabet {
-			if a.Name != b.Name && (a.Class != "plain" || b.Class != "plain") {
-				if (a.Class == "space-inner" || a.Class == "utf8-2byte" || a.Class == "dquote" || a.Class == "plain") && b.Class != "plain" {
-					mk([]string{a.Name, b.Name}, "pairfile", "modify", "literal", "primary", "P1")
-				}
+			if a == b.Name {
+				continue
 			}
+			mk([]string{a, b.Name}, "pairfile", "modify", "literal", "primary", "P1")
 		}
 	}
 	return cs
